@@ -45,6 +45,64 @@ theorem fact_router : factLocalFirst = true ∧
 theorem fact_deactivation : Facts.C18.deactivationConds =
     ["resolver.IsDeactivated(document)", "metadata == nil || !metadata.AllowDeactivated"] := by decide
 
+/-! ### did:web identifier <-> URL round trip -/
+
+/-- **Round trip.** For every identifier of the decidable grammar `wfDID` — method web; a domain name that is not an
+    IPv4 address, optionally `%3A` + decimal port; then any number of non-empty path segments made of `[A-Za-z0-9._-]` and
+    upper-case escapes of the 14 reserved characters, the last segment not being `did.json` — `DIDToURL` succeeds and
+    `URLToDID` of the resulting URL is exactly the identifier. Unbounded: all lengths, all numbers of segments. -/
+theorem did_url_roundtrip (d : DID) (h : wfDID Facts.C18.encodeSet d = true) :
+    ∃ u, didToURL Facts.C18.decodeSet d = .ok u ∧ urlToDID Facts.C18.encodeSet u = .ok d := by
+  rw [fact_sets.2, fact_sets.1] at *
+  change wfDID set14 d = true at h
+  unfold wfDID at h
+  simp only [Bool.and_eq_true, decide_eq_true_eq] at h
+  obtain ⟨hm, hrest⟩ := h
+  have hjoin := join_splitOn cColon d.id
+  cases hsp : splitOn cColon d.id with
+  | nil => rw [hsp] at hrest; simp at hrest
+  | cons hd segs =>
+    rw [hsp] at hrest hjoin
+    simp only [Bool.and_eq_true, List.all_eq_true, decide_eq_true_eq, ne_eq] at hrest
+    obtain ⟨⟨hh, hsegs⟩, hl⟩ := hrest
+    obtain ⟨name, port, ok, rfl⟩ := wfHost_decomp hh
+    have hs : SegsOK segs := fun s hs => by
+      have := hsegs s hs
+      simp only [Bool.and_eq_true, decide_eq_true_eq] at this
+      exact this
+    obtain ⟨u, h1, h2, _⟩ := roundtrip_parts name port segs ok hs hl
+    have hd : d = { method := sWeb, id := joinWith cColon (hEnc name port :: segs) } := by
+      cases d; simp only [DID.mk.injEq]; exact ⟨hm, hjoin.symm⟩
+    exact ⟨u, by rw [hd]; exact h1, by rw [hd]; exact h2⟩
+
+/-- … and hence `DIDToURL (URLToDID u) = u` for every URL in the image of the grammar -/
+theorem url_did_roundtrip_image (d : DID) (h : wfDID Facts.C18.encodeSet d = true) (u : URL)
+    (hu : didToURL Facts.C18.decodeSet d = .ok u) :
+    (urlToDID Facts.C18.encodeSet u).bind (didToURL Facts.C18.decodeSet) = .ok u := by
+  obtain ⟨u', h1, h2⟩ := did_url_roundtrip d h
+  rw [hu] at h1; cases h1
+  rw [h2]; exact hu
+
+/-- the grammar is inhabited by the documented examples: did:web:localhost, did:web:localhost%3A3000:alice,
+    did:web:localhost:alice%2Band%2Bbob:path -/
+example : wfDID Facts.C18.encodeSet { method := sWeb, id := [108, 111, 99, 97, 108, 104, 111, 115, 116] } = true ∧
+    wfDID Facts.C18.encodeSet { method := sWeb,
+      id := [108, 111, 99, 97, 108, 104, 111, 115, 116, 37, 51, 65, 51, 48, 48, 48, 58, 97, 108, 105, 99, 101] } = true ∧
+    wfDID Facts.C18.encodeSet { method := sWeb,
+      id := [108, 111, 99, 97, 108, 104, 111, 115, 116, 58, 97, 108, 105, 99, 101, 37, 50, 66, 97, 110, 100, 37, 50, 66,
+             98, 111, 98, 58, 112, 97, 116, 104] } = true := by decide
+
+/-- outside the grammar the law fails — `did.json` as last segment, a lower-case escape, an escaped non-ASCII rune
+    (`URLToDID` truncates the rune `š` U+0161 to its low byte `a`): concrete identifiers that do not come back -/
+theorem roundtrip_fails_outside_grammar :
+    (∃ u, didToURL Facts.C18.decodeSet { method := sWeb, id := [104, 58, 100, 105, 100, 46, 106, 115, 111, 110] } = .ok u ∧   -- h:did.json
+      urlToDID Facts.C18.encodeSet u = .ok { method := sWeb, id := [104] }) ∧
+    (∃ u, didToURL Facts.C18.decodeSet { method := sWeb, id := [104, 37, 51, 97, 56, 48] } = .ok u ∧                          -- h%3a80
+      urlToDID Facts.C18.encodeSet u = .ok { method := sWeb, id := [104, 37, 51, 65, 56, 48] }) ∧
+    (∃ u, didToURL Facts.C18.decodeSet { method := sWeb, id := [104, 58, 37, 67, 53, 37, 65, 49] } = .ok u ∧                  -- h:%C5%A1
+      urlToDID Facts.C18.encodeSet u = .ok { method := sWeb, id := [104, 58, 97] }) := by
+  refine ⟨⟨_, rfl, ?_⟩, ⟨_, rfl, ?_⟩, ⟨_, rfl, ?_⟩⟩ <;> decide
+
 /-! ### redirects cannot leave the origin -/
 
 /-- Whatever the servers answer (any function of hop number and request), every request made while resolving a did:web
